@@ -104,6 +104,10 @@ def to_local(sig, v, vi=None):
     return v
 
 
+def _itag(iface):
+    return iface[-2:] if iface in (PA, PB, PC) else 'undeclared:' + iface
+
+
 class W:
     pass
 
@@ -316,7 +320,10 @@ class PropScenario(explore.Scenario):
         store = w.store[name]
         keys = w.keys[name]
         # GetAll per interface
-        for iface in (PA, PB, PC, 'org.ex.Unknown'):
+        # (and names that are a proper prefix / an extension of declared
+        # ones: they name no interface of the object)
+        for iface in (PA, PB, PC, 'org.ex.Unknown', 'org.ex.P', 'org.ex',
+                      PA + 'X', PB + '.Y'):
             mine, other = self._call(w, name, 'GetAll', 's', [iface])
             want = {k[1]: store[k] for k in keys if k[0] == iface
                     and DECL[k][1] != 'write'}
@@ -329,7 +336,7 @@ class PropScenario(explore.Scenario):
             m = mine[0]
             if m['type'] == 3:
                 if declared:
-                    viol.append(('%s/getall/error/%s' % (PROP, iface[-2:]),
+                    viol.append(('%s/getall/error/%s' % (PROP, _itag(iface)),
                                  'after %r: GetAll(%s) on /%s failed: %r'
                                  % (ev, iface, name, _b(m))))
                 continue
@@ -337,7 +344,7 @@ class PropScenario(explore.Scenario):
             if got != want:
                 viol.append((
                     '%s/getall/%s/%s' % (
-                        PROP, iface[-2:],
+                        PROP, _itag(iface),
                         'missing' if set(want) - set(got) else
                         'extra' if set(got) - set(want) else 'value'),
                     'after %r: GetAll(%s) on /%s = %r, expected %r'
@@ -355,9 +362,12 @@ class PropScenario(explore.Scenario):
         # Get per (interface kind, property)
         for k in DERIVED_KEYS:
             sig, access, emits = DECL[k]
-            for how in ('right', 'empty', 'unknown-iface'):
+            for how in ('right', 'empty', 'unknown-iface', 'prefix-iface',
+                        'longer-iface'):
                 iface = {'right': k[0], 'empty': '',
-                         'unknown-iface': 'org.ex.Unknown'}[how]
+                         'unknown-iface': 'org.ex.Unknown',
+                         'prefix-iface': k[0][:-1],
+                         'longer-iface': k[0] + 'X'}[how]
                 mine, other = self._call(w, name, 'Get', 'ss', [iface, k[1]])
                 if len(mine) != 1:
                     viol.append(('%s/get/replies' % PROP,
@@ -366,7 +376,7 @@ class PropScenario(explore.Scenario):
                     continue
                 m = mine[0]
                 present = k in keys
-                if how == 'unknown-iface' or not present and not (
+                if how.endswith('-iface') or not present and not (
                         how == 'empty' and any(kk[1] == k[1]
                                                for kk in keys)):
                     if m['type'] != 3:
